@@ -921,10 +921,16 @@ func (w *zzvKWorld) buildTrace() *zzvKTraceResult {
 	ackOrigin := map[string]string{} // pub fingerprint -> role that first put it on a wire in an ACK
 	openOrigin := map[string]string{}
 	for ord, x := range raw {
-		if x.group == 0 || x.f == nil {
+		if x.f == nil {
 			continue
 		}
 		d := zzvKDecode(x.f)
+		if x.group == 0 {
+			// outside every scenario: warm-up traffic, or a late frame of a traced tunnel (attributed below)
+			if d.Class == "other" || d.Class == "open" || bySid[zzvKSidKey{x.f.Link, x.f.StreamID}] == nil {
+				continue
+			}
+		}
 		if d.Class == "other" {
 			for _, mk := range w.markers {
 				if bytes.Contains(x.f.Payload, mk) {
@@ -945,7 +951,7 @@ func (w *zzvKWorld) buildTrace() *zzvKTraceResult {
 			continue
 		}
 		tu := bySid[zzvKSidKey{x.f.Link, x.f.StreamID}]
-		if tu == nil || tu.group != x.group {
+		if tu == nil {
 			anomaly("frame on a stream id that no traced OPEN established", x.f, nil)
 			continue
 		}
